@@ -305,8 +305,9 @@ func (c *Ctx) reachFrom(root *ssa.Function) map[*ssa.Function]bool {
 	return out
 }
 
-func c09Tunnel(c *Ctx) {
-	rule := "C09/tunnel"
+func c09Tunnel(c *Ctx) { c09TunnelAs(c, "C09/tunnel") }
+
+func c09TunnelAs(c *Ctx, rule string) {
 	fw := c.Fn("cmd/rdpgw/protocol", "forward")
 	pr := c.Fn("cmd/rdpgw/protocol", "Processor.Process")
 	side := map[string]map[*ssa.Function]bool{"relay": c.reachFrom(fw), "loop": c.reachFrom(pr)}
